@@ -234,6 +234,33 @@ def _bool(x=False):
     return _b.bool(x)
 
 
+class SymZip:
+    """zip(...) of sequences of symbolic length: element k is the tuple of the k-th elements; only usable
+    as the iterable of a for-loop that has a loop contract (or with an explicit index)"""
+
+    def __init__(self, seqs):
+        self.seqs = seqs
+
+    def __symlen__(self):
+        n = None
+        for s_ in self.seqs:
+            m = s_.__symlen__() if hasattr(s_, "__symlen__") else _b.len(s_)
+            n = m if n is None else _min(n, m)
+        return n
+
+    def get(self, k):
+        return _b.tuple((s_.get(k) if hasattr(s_, "get") and hasattr(s_, "__symlen__") else s_[k]) for s_ in self.seqs)
+
+    def __iter__(self):
+        raise Unsupported("iterating a zip of symbolic-length sequences outside a loop with a contract")
+
+
+def _zip(*a, **k):
+    if _b.any(hasattr(x, "__symlen__") for x in a):
+        return SymZip(_b.list(a))
+    return _b.zip(*a, **k)
+
+
 def make_builtins():
     """builtins dict for shadow modules: only *functions* are replaced; the type names int/float/
     tuple/list/bytes/bytearray stay the real types (so isinstance/annotations/dtype= keep working)
@@ -247,6 +274,7 @@ def make_builtins():
         range=_range,
         sum=_sum,
         hash=_hash,
+        zip=_zip,
         __vc_int__=_int,
         __vc_float__=_float,
         __vc_bytearray__=_bytearray,
